@@ -20,7 +20,7 @@ func init() {
 	register(&explore.Prop{
 		ID: "C14", Level: levelMC, Explorer: "E2 path mode (build histories, deterministic pool, owned map order) + E4 schedule explorer (concurrent builders)",
 		Instr: true,
-		Rule: "instrumented build: sync.Pool replaced by a deterministic LIFO pool, every `range` over a map iterates in an order the explorer chooses. Histories: a menu of 14 batches chosen to leave different residue in the pooled builder (more/fewer fields, terms, postings, locations; doc values on/off; larger then smaller; composite fields naming the same field under different schemas; a 41-field batch whose later documents carry only 2-3 of the fields; a batch in which every field including `_id` has doc values; a build that FAILS with an unknown chunk mode); every history of length <=3 (thorough <=4) followed by every target, under chunk modes {1025, 2}; map order: for every map-range site reached, reverse and rotated orders as single deviations; schedules: 2 threads x 2 builds and 3 threads x 1 build of different batches at preemption bound 2 (scheduling points at pool/once operations and written package-level state); " +
+		Rule: "instrumented build: sync.Pool replaced by a deterministic LIFO pool, every `range` over a map iterates in an order the explorer chooses. Histories: a menu of 14 batches chosen to leave different residue in the pooled builder (more/fewer fields, terms, postings, locations; doc values on/off; larger then smaller; composite fields naming the same field under different schemas; a 41-field batch whose later documents carry only 2-3 of the fields; a batch in which every field including `_id` has doc values; a build that FAILS with an unknown chunk mode); every history of length <=3 (thorough <=4) followed by every target, under chunk modes {1025, 2}; HIST-LARGE: histories [big], [big, m] (thorough also [m, big]) with big = a 1100-document batch (thorough also 2100: several 1024-document chunks) followed by every target; map order: for every map-range site reached, reverse and rotated orders as single deviations; schedules: 2 threads x 2 builds and 3 threads x 1 build of different batches at preemption bound 2 (scheduling points at pool/once operations and written package-level state); " +
 			"oracle: bytes(target | history, order, schedule) == bytes(target | cold start, sorted order, alone); non-trivial = the pool held a recycled builder when the target build started (VerifInterimPool + PoolLen) / schedule has a preemption",
 		Assumptions: []string{"the deterministic pool models sync.Pool as LIFO reuse; the real pool may also drop objects (equivalent to a cold start, which is the baseline)", "bounded histories/menus (DESIGN.md 5 C14)", "preemption bound 2, <=3 threads; statement-level atomicity"},
 		Budget:      qBudget, Run: runC14,
@@ -94,6 +94,22 @@ func wide(n int) []model.Doc {
 	d2 := model.Doc{gen.IDField("w", 2), fld(31, 2), fld(2, 2), fld(16, 2)} // mixed order
 	d3 := model.Doc{gen.IDField("w", 3), fld(5, 3), fld(5, 3), fld(38, 3)}  // a repeated field
 	return []model.Doc{d0, d1, d2, d3}
+}
+
+// c14Big: n documents with postings, locations, a doc-value field and stored values in every third.
+func c14Big(n int) []model.Doc {
+	b := make([]model.Doc, n)
+	for i := range b {
+		d := model.Doc{gen.IDField("g", i), {N: "a", Len: 2, Terms: []model.Term{{T: "x", Freq: 1 + i%2, Locs: []model.Loc{{P: 1, S: 0, E: 1}}}, {T: fmt.Sprintf("u%d", i%9), Freq: 1}}}}
+		if i%2 == 0 {
+			d = append(d, model.Field{N: "b", Len: 1, DV: true, Terms: []model.Term{{T: fmt.Sprintf("t%d", i%5), Freq: 1}}})
+		}
+		if i%3 == 0 {
+			d[1].St, d[1].Val = true, []byte(fmt.Sprintf("stored-%d", i))
+		}
+		b[i] = d
+	}
+	return b
 }
 
 // composite: documents with the given plain fields and a composite field "zall" whose locations
@@ -183,6 +199,69 @@ func runC14(c *explore.Ctx) {
 				}
 				return !c.Expired()
 			})
+		}
+		// HIST-LARGE: a recycled builder that has seen a batch spanning several 1024-document chunks
+		// (per-field coders, chunk tables and size estimates grown for it) followed by small batches
+		{
+			bigs := [][]model.Doc{c14Big(1100)}
+			if c.Thorough() {
+				bigs = append(bigs, c14Big(2100))
+			}
+			bigBase := make([][]byte, len(bigs))
+			for i, b := range bigs {
+				verifrt.ResetPools()
+				bb, err := buildBytes(b, mode)
+				if err != nil {
+					c.R.Error = fmt.Sprintf("C14 cold build of big batch %d failed: %v", i, err)
+					return
+				}
+				bigBase[i] = bb
+			}
+			scope := fmt.Sprintf("HIST-LARGE/%d", mode)
+			var li int64
+			for bi := range bigs {
+				var hists [][]int // -1 = the big batch
+				hists = append(hists, []int{-1})
+				for j := range menu {
+					hists = append(hists, []int{-1, j})
+					if c.Thorough() {
+						hists = append(hists, []int{j, -1})
+					}
+				}
+				for _, h := range hists {
+					for target := -1; target < len(menu); target++ {
+						my := li
+						li++
+						if !c.MineIdx(scope, my) {
+							continue
+						}
+						c.Eval()
+						c.Nontrivial()
+						verifrt.ResetPools()
+						for _, x := range h {
+							if x < 0 {
+								buildBytes(bigs[bi], mode)
+							} else {
+								buildBytes(menu[x], mode)
+							}
+						}
+						tb, want := bigs[bi], bigBase[bi]
+						if target >= 0 {
+							tb, want = menu[target], base[target]
+						}
+						got, err := buildBytes(tb, mode)
+						cas := fmt.Sprintf("%s #%d big=%d documents, history=%v (-1 = the big batch) target=%d", scope, my, len(bigs[bi]), h, target)
+						if err != nil {
+							c.Violate(scope, my, sigOf("C14", "history", "error: "+err.Error()), err.Error(), cas)
+						} else if !bytes.Equal(got, want) {
+							c.Violate(scope, my, "C14/history/bytes-differ", fmt.Sprintf("target built after history %v differs from its cold-start bytes (%d vs %d bytes, first difference at %d)", h, len(got), len(want), firstDiff(got, want)), cas)
+						}
+						if c.Expired() {
+							return
+						}
+					}
+				}
+			}
 		}
 		// map iteration order deviations
 		sites := map[string]bool{}
